@@ -1136,9 +1136,8 @@ def singleton_eq_comparison(source: str) -> str:
         changes = False
         operators = []
         for comparator, node_operator in zip(node.comparators, node.ops):
-            is_comparator_singleton = core.match_template(
-                comparator, ast.Constant(value=(None, True, False))
-            )
+            # Only None: "x == True" also holds for x = 1 (and numpy/pandas booleans), which are not True
+            is_comparator_singleton = isinstance(comparator, ast.Constant) and comparator.value is None
             if is_comparator_singleton and isinstance(node_operator, ast.Eq):
                 operators.append(ast.Is())
                 changes = True
